@@ -49,7 +49,7 @@ pub fn gen_case(rng: &mut Rng, idx: usize, thorough: bool) -> Value {
         return json!({"kind": "api", "grammar": g.to_json(), "texts": t.iter().map(|t| vocab::hex(t.as_bytes())).collect::<Vec<_>>(), "vocab_kind": (idx / 32) % 3, "canonical": true, "seed": rng.next() % 1_000_000_000, "steps": steps});
     }
     let (g, texts) = eng::gen_grammar(rng, idx);
-    json!({"kind": "api", "grammar": g.to_json(), "texts": texts.iter().map(|t| vocab::hex(t)).collect::<Vec<_>>(), "vocab_kind": (idx + idx / 3) % 3, "canonical": (idx / 4) % 2 == 0, "seed": rng.next() % 1_000_000_000, "steps": steps})
+    json!({"kind": "api", "grammar": g.to_json(), "texts": texts.iter().map(|t| vocab::hex(t)).collect::<Vec<_>>(), "vocab_kind": (idx + idx / 3) % 3, "canonical": (idx / 8) % 2 == 0, "seed": rng.next() % 1_000_000_000, "steps": steps})
 }
 
 pub fn run_case(ctx: &Ctx, case: &Value, tag: usize, rep: &mut Report, mb: &mut ModelBatch) {
